@@ -223,23 +223,59 @@ func freezeAncestors(orig, mut []*Node, path []int) {
 // deletion, duplication, swap with the next sibling, move to the front. ok=false if msg does
 // not parse as a lisk codec message.
 func StructureMutants(msg []byte) (out []Mutant, ok bool) {
+	lz, ok := LazyStructureMutants(msg)
+	if !ok {
+		return nil, false
+	}
+	for _, l := range lz {
+		out = append(out, Mutant{l.Class, l.Build()})
+	}
+	return out, true
+}
+
+// Lazy is a structure mutant that is materialised only when Build is called (a 30 KB
+// message has ~10^5 mutants; building all of them before sampling costs gigabytes).
+type Lazy struct {
+	Class string
+	Build func() []byte
+}
+
+// SampleStructureMutants returns at most max structure mutants of msg (all of them if there
+// are not more, otherwise a uniform sample drawn with r), not yet materialised.
+func SampleStructureMutants(r *rand.Rand, msg []byte, max int) ([]Lazy, bool) {
+	lz, ok := LazyStructureMutants(msg)
+	if !ok {
+		return nil, false
+	}
+	if max > 0 && len(lz) > max {
+		r.Shuffle(len(lz), func(i, j int) { lz[i], lz[j] = lz[j], lz[i] })
+		lz = lz[:max]
+	}
+	return lz, true
+}
+
+// LazyStructureMutants is StructureMutants without materialising the mutants.
+func LazyStructureMutants(msg []byte) (out []Lazy, ok bool) {
 	nodes, ok := Parse(msg, 0)
 	if !ok {
 		return nil, false
 	}
-	add := func(class string, m []*Node) { out = append(out, Mutant{class, Bytes(m)}) }
 	walk(nodes, nil, func(path []int, n *Node) {
 		d := len(path) - 1
 		tag := fmt.Sprintf("d%d", d)
 		mutate := func(class string, stale bool, f func(x *Node)) {
-			m := clone(nodes)
-			list, i := at(m, path)
-			f((*list)[i])
 			if stale && d > 0 {
-				freezeAncestors(nodes, m, path)
 				class += ":stale"
 			}
-			add(class+"@"+tag, m)
+			out = append(out, Lazy{class + "@" + tag, func() []byte {
+				m := clone(nodes)
+				list, i := at(m, path)
+				f((*list)[i])
+				if stale && d > 0 {
+					freezeAncestors(nodes, m, path)
+				}
+				return Bytes(m)
+			}})
 		}
 		if n.WT == 2 {
 			l := len(n.content())
@@ -314,10 +350,12 @@ func StructureMutants(msg []byte) (out []Mutant, ok bool) {
 		})
 		// list operations
 		listOp := func(class string, f func(list *[]*Node, i int)) {
-			m := clone(nodes)
-			list, i := at(m, path)
-			f(list, i)
-			add(class+"@"+tag, m)
+			out = append(out, Lazy{class + "@" + tag, func() []byte {
+				m := clone(nodes)
+				list, i := at(m, path)
+				f(list, i)
+				return Bytes(m)
+			}})
 		}
 		listOp("delete", func(list *[]*Node, i int) { *list = append((*list)[:i:i], (*list)[i+1:]...) })
 		listOp("duplicate", func(list *[]*Node, i int) {
